@@ -179,3 +179,7 @@ func VerifFeatID(it Features, i int) FeatureID {
 
 // VerifFeatRef is the identity of the feature object item i of a Features iterator yields.
 func VerifFeatRef(it Features, i int) int { return 0 }
+
+// VerifComparable: b6.Less and b6.Equal accept the two values (same comparable kind).
+// Uninterpreted; it only appears as an assumption of contracts.
+func VerifComparable(a interface{}, b interface{}) bool { return true }
